@@ -132,6 +132,8 @@ fn watched<P: Prop, T>(case: &P::Case, f: impl FnOnce() -> T) -> T {
         }
     }
     let r = f();
+    // pins a check may have left behind (obs::mk_dt_off_pin) end with the case
+    crate::obs::unpin_local();
     if let Ok(mut g) = slots()[w].lock() {
         *g = None;
     }
